@@ -121,6 +121,39 @@ def step(ex, st, d, depth):
                         else: yield from go(s3, inner2, fuel - 1)
         yield from go(st, inner, 64)
         return
+    if k == 'take_while':
+        _, inner, f, done = d
+        if done:
+            yield st, None, d; return
+        for s2, item, inner2 in step(ex, st, inner, depth):
+            if item is None or (isinstance(item, tuple) and item and item[0] == '__panic__'):
+                yield s2, item, ('take_while', inner2, f, item is None); continue
+            for s3, kind, val in ex.call_value(f, [s2.ref(item)], s2, depth):
+                if kind != 'ret':
+                    yield s3, ('__panic__', val), ('take_while', inner2, f, True); continue
+                for s4, b in ex.fork_bool(s3, val.e):
+                    if b: yield s4, item, ('take_while', inner2, f, False)
+                    else: yield s4, None, ('take_while', inner2, f, True)
+        return
+    if k == 'skip_while':
+        _, inner, f, started = d
+        if started:
+            for s2, item, inner2 in step(ex, st, inner, depth):
+                yield s2, item, ('skip_while', inner2, f, True)
+            return
+        def go_sw(s, inner_d, fuel):
+            if fuel <= 0: raise BoundHit('skip_while iterator fuel')
+            for s2, item, inner2 in step(ex, s, inner_d, depth):
+                if item is None or (isinstance(item, tuple) and item and item[0] == '__panic__'):
+                    yield s2, item, ('skip_while', inner2, f, True); continue
+                for s3, kind, val in ex.call_value(f, [s2.ref(item)], s2, depth):
+                    if kind != 'ret':
+                        yield s3, ('__panic__', val), ('skip_while', inner2, f, True); continue
+                    for s4, b in ex.fork_bool(s3, val.e):
+                        if b: yield from go_sw(s4, inner2, fuel - 1)
+                        else: yield s4, item, ('skip_while', inner2, f, True)
+        yield from go_sw(st, inner, 64)
+        return
     if k == 'enumerate':
         _, inner, n = d
         for s2, item, inner2 in step(ex, st, inner, depth):
@@ -272,6 +305,8 @@ def _adaptor(kind):
             it = as_iter(ctx.ex, st, args[0])
         if kind in ('map', 'filter', 'filter_map'):
             return ret(st, Py('iter', (kind, it.data, args[1])))
+        if kind in ('take_while', 'skip_while'):
+            return ret(st, Py('iter', (kind, it.data, args[1], False)))
         if kind == 'enumerate': return ret(st, Py('iter', ('enumerate', it.data, 0)))
         if kind in ('skip', 'take'):
             n = args[1]; c = n.concrete()
@@ -289,7 +324,7 @@ def _adaptor(kind):
     return f
 
 
-for _k in ('map', 'filter', 'filter_map', 'enumerate', 'skip', 'take', 'chain', 'zip', 'rev', 'peekable', 'cloned', 'copied'):
+for _k in ('take_while', 'skip_while', 'map', 'filter', 'filter_map', 'enumerate', 'skip', 'take', 'chain', 'zip', 'rev', 'peekable', 'cloned', 'copied'):
     model(IT + _k + r'(?:::<.*>)?$', 'iter_' + _k)(_adaptor(_k))
 
 
